@@ -1,5 +1,6 @@
 import AcryoVerif.Py
 import AcryoVerif.Model.Crop
+import AcryoVerif.Model.Search
 
 /-! Dispatch of hand-written model operations for the line-protocol driver. -/
 namespace Model
@@ -39,6 +40,8 @@ def dispatch (name : String) (a : Array Rat) : Option String :=
   match name with
   | "prepAffine" => some (flat (opPrepAffine a))
   | "prepAffineCS" => some (flat (opPrepAffineCS a))
+  | "searchLoader" => some (Canon.canon (searchLoader (i a 0) (i a 1) (a.toList.drop 2)))
+  | "searchGroup" => some (Canon.canon (searchGroup (i a 0) (i a 1) (a.toList.drop 2)))
   | _ => none
 
 end Model
